@@ -1,0 +1,36 @@
+// Copyright 2020-2024 IOTA Stiftung
+// SPDX-License-Identifier: Apache-2.0
+
+//! Verification hooks, compiled only with `--cfg identity_rs_verif` (off by default, nothing changes without it).
+//!
+//! A deterministic simulator uses them to make the write of the Stronghold snapshot file fail at chosen occurrences,
+//! exactly where a full disk, a read-only file system or a lost password would make it fail.
+
+use std::cell::Cell;
+
+thread_local! {
+  /// Bit `i` set: the `i`-th snapshot write counted from the last call of [`set_snapshot_write_faults`] fails.
+  static FAULTS: Cell<u32> = const { Cell::new(0) };
+  static WRITES: Cell<u32> = const { Cell::new(0) };
+}
+
+/// Arms a fault plan for the snapshot writes of the current thread and restarts the count.
+pub fn set_snapshot_write_faults(mask: u32) {
+  FAULTS.with(|f| f.set(mask));
+  WRITES.with(|w| w.set(0));
+}
+
+/// Number of snapshot writes attempted on the current thread since the plan was armed.
+pub fn snapshot_writes() -> u32 {
+  WRITES.with(|w| w.get())
+}
+
+/// Called where the snapshot file is about to be written: `true` means that this write is to fail.
+pub(crate) fn snapshot_write_fails() -> bool {
+  let index: u32 = WRITES.with(|w| {
+    let index = w.get();
+    w.set(index + 1);
+    index
+  });
+  index < 32 && (FAULTS.with(|f| f.get()) >> index) & 1 == 1
+}
